@@ -712,6 +712,9 @@ def cases(tier, seed):
         add("sbs_rand", part=part, n=3000 if T else 800)
     add("agl", n=120000 if T else 20000)
     add("bits", n=50000 if T else 8000)
+    if T:
+        for sp in ['misc', 'cffLib', 'ttLib/tables/TupleVariation_test.py', 'ttLib/woff2_test.py', 't1Lib', 'agl_test.py', 'ttx']:
+            add("suite", path=sp)
     return cs
 
 
@@ -1118,3 +1121,12 @@ def drv_bits(case, rnd, ctx):
         bit_indices(v)
     for _ in range(case["n"]):
         bit_indices(rnd.getrandbits(rnd.randrange(1, 130)))
+
+
+def drv_suite(case, rnd, ctx):
+    """The repository's own tests as a workload for the monitors (outcomes not judged)."""
+    from vmon import suite
+    passed, failed, tail = suite.run_pytest([case["path"]], ctx)
+    ctx.sample = {"suite": case["path"], "tests_passed": passed, "tests_failed": failed}
+    if not passed:
+        ctx.inconclusive("suite workload ran no passing test: " + tail[-300:])
